@@ -684,7 +684,9 @@ def find_writers(ctx: Ctx, prog: sf.SqlProgram, rule: Optional[str] = 'R3') -> L
             elif st.kind == 'insert' and st.table.lower() == 'attempts':
                 cols = [c.lower() for c in (st.cols or [])]
                 if rule:
-                    ctx.check(not (set(cols) & set(COLS)) and all(text(c).lower() == text(v).lower() for c, v in st.on_dup), rule, f'{r.file}::{name}::INSERT INTO attempts',
+                    # ON DUPLICATE KEY UPDATE of one of the four columns with anything but the column itself re-enters the row behind the trigger's back
+                    dup_bad = [text(c) for c, v in st.on_dup if c.kind == 'col' and c.parts[-1].lower() in COLS and not (v.kind == 'col' and v.parts[-1].lower() == c.parts[-1].lower())]
+                    ctx.check(not (set(cols) & set(COLS)) and not dup_bad, rule, f'sql::{name}::INSERT INTO attempts',
                               f'INSERT INTO attempts sets {sorted(set(cols) & set(COLS))} / updates on duplicate: those values bypass or re-enter the BEFORE UPDATE trigger unchecked', r.file, r.line_of(st))
                 out.append(Writer(f'sql:{name}::duplicate-insert no-op', r.file, r.line_of(st), [], set()))
     for rel in pf.walk_py(PY_DIRS):
